@@ -35,6 +35,10 @@ func init() {
 			{ID: "C02.R6", Doc: "semaphore / finished-token pairing in manageStream, acquireSemaphore, NewServerStream; capacities are the constant 1", Run: c02r6},
 			{ID: "C02.R7", Doc: "who-may-call: newStream, streamBuffer.Set; who-may-write: Stream.id", Run: c02r7},
 			{ID: "C02.R8", Doc: "the connection's request buffer Conn.wbuf and every slice aliasing it are used only under Conn.mu", Run: c02r8},
+			{ID: "C02.S1", Doc: "metadata of an abandoned call is not attached to the next RPC", Alias: "C11.R2"},
+			{ID: "C02.S2", Doc: "metadata bytes are private to the call that encoded them", Alias: "C11.R3"},
+			{ID: "C02.S3", Doc: "a stream cannot finish (and let its successor start) before its terminal packet is written", Alias: "C03.R8"},
+			{ID: "C02.S4", Alias: "C03.R9"},
 		},
 	})
 }
